@@ -274,7 +274,7 @@ func genC13(t *rapid.T) c13Case {
 	main := &mj.File{Path: "/main.jet", Imports: []string{"/lib.jet"}}
 	g.p.Files = []*mj.File{main, g.lib}
 	var body []*mj.Node
-	switch g.n(0, 3, "placement") {
+	switch g.n(0, 4, "placement") {
 	case 0:
 		g.labels["placed:top"] = true
 		body = g.tryStmt(false)
@@ -286,6 +286,13 @@ func genC13(t *rapid.T) c13Case {
 	case 2:
 		g.labels["placed:in-range"] = true
 		body = []*mj.Node{{K: "range", E: mj.Call("slice", mj.Str("r1"), mj.Str("r2")), Body: g.tryStmt(false)}, mj.Text("(.="), mj.Print(mj.Dot()), mj.Text(")")}
+	case 4:
+		// the try statement lives in a template that is run through exec(): its output is thrown away, but it
+		// still stops the error, runs its catch, and lets the statements after it (the return) run
+		g.labels["placed:in-exec"] = true
+		f := &mj.File{Path: "/inc/hostexec.jet", Body: append(g.tryStmt(false), &mj.Node{K: "return", E: mj.Str("host-finished")})}
+		g.p.Files = append(g.p.Files, f)
+		body = []*mj.Node{mj.Text("(exec:"), mj.Print(mj.Call("exec", mj.Str(f.Path))), mj.Text(")(.="), mj.Print(mj.Dot()), mj.Text(")")}
 	default:
 		g.labels["placed:in-include"] = true
 		f := &mj.File{Path: "/inc/host.jet", Body: g.tryStmt(false)}
